@@ -554,3 +554,14 @@ Proof.
   - destruct (a =? 256); [|destruct (a =? 512); [|destruct (a =? 768)]]; cbn [sf sd stm str sc notrig2];
       intro H; try (left; discriminate); try (right; discriminate); congruence.
 Qed.
+
+(* consequence: inside this option class the recorded stream does not depend on the instrumentation method *)
+Theorem method_independent_sel2 tg fm hc gd thr ms f :
+  0 < gd -> wf_tg tg -> pg_guard tg -> all_timed f -> heights f <= ms ->
+  out (fst (exec (fcfg2 tg fm hc gd thr ms PG) (flat_forest f) (init, []))) =
+  out (fst (exec (fcfg2 tg fm hc gd thr ms CYG) (flat_forest f) (init, []))).
+Proof.
+  intros Hgd WF G HT Hh.
+  rewrite (run_forest_sel2 tg fm hc gd thr ms PG Hgd WF (or_intror G) f HT Hh).
+  rewrite (run_forest_sel2 tg fm hc gd thr ms CYG Hgd WF (or_introl eq_refl) f HT Hh). reflexivity.
+Qed.
